@@ -211,6 +211,18 @@ func (m *Machine) bigDecimal(x *smt.Term) []*smt.Term {
 	if !m.IntMode() {
 		m.unsupported("decimal text of symbolic big.Int in bv mode")
 	}
+	if m.decCache == nil {
+		m.decCache = map[*smt.Term][]*smt.Term{}
+	}
+	if ds, ok := m.decCache[x]; ok {
+		return ds
+	}
+	orig := x
+	defer func() {
+		if r := recover(); r != nil {
+			panic(r)
+		}
+	}()
 	// digit count by forking
 	n := 1
 	maxDigits := 40
@@ -238,6 +250,7 @@ func (m *Machine) bigDecimal(x *smt.Term) []*smt.Term {
 	for i := 0; i < n; i++ {
 		out[i] = smt.IAdd(ds[n-1-i], smt.IntConstI(48))
 	}
+	m.decCache[orig] = out
 	return out
 }
 
